@@ -203,6 +203,10 @@ class Portfolio:
         # (they only cost time when an obligation is about to be reported as not discharged, e.g. on a loaded machine)
         isfp = 'FloatingPoint' in txt or 'fp.' in txt
         T = max(self.timeout, ob.meta.get('timeout', 0))          # (an obligation may ask for more than the tier's default)
+        if isfp:
+            # floating-point obligations need 5-10 s of CPU on an idle machine; with all checks started at once the
+            # wall-clock limit of 10 s was hit (three obligations of C13 were reported as not discharged under that load)
+            T = max(T, 40)
         plan = [(solvers[0], T if isfp else min(T, 4))] + [(s, T) for s in solvers[1:]] + [(solvers[0], T)]
         plan += [(solvers[0], 3 * T), (solvers[1], 3 * T)]
         decided = None
